@@ -56,3 +56,37 @@ void lemma_L4_no_raise_is_lost(void) {
   VASSERT(inv(s), "L: L4 a raise is never lost: after any step, a raise the waiter has not been told about is either recorded as RAISED or its raiser is waking the waiter");
   VCANARY("L4 premises satisfiable");
 }
+/* L5 — channel + signal: a receiver is never left asleep with a message queued and no raise under way (bounded / unbounded / sp channels).
+ * Uses exactly the per-operation facts the function-level groups prove: a sender PUBLISHES its message first and RAISES second (send groups);
+ * the receiver CHECKS the queue, and only after an empty check waits; wait registers by a CAS from NO, or finds RAISED, clears and returns; after
+ * every return it checks again (receive groups); a raise that takes the waiter wakes it (signal_raise).
+ *   s in {NO, RAISED, WAITER};  m = published, unreceived messages;  pend = senders that published and have not exchanged yet;
+ *   wip = a raiser took the waiter out (1) and possibly reset the word (2) but has not yet woken it;  pc = receiver: check / saw_empty / registered */
+enum { PC_CHECK, PC_SAW_EMPTY, PC_REGISTERED };
+typedef struct { unsigned s, m, pend, wip, pc; } cs_t;
+static int cinv(cs_t c) {
+  return c.s <= W_F && c.wip <= 2 && c.pc <= PC_REGISTERED && c.m < (1u << 30) && c.pend < (1u << 30) &&
+         ((c.s == W_F) == (c.pc == PC_REGISTERED && c.wip == 0)) && (c.wip == 0 || c.pc == PC_REGISTERED) && (c.wip != 1 || c.s == W_RAISED) &&
+         (!(c.pc == PC_SAW_EMPTY && c.m > 0 && c.pend == 0) || c.s == W_RAISED) &&           /* a completed raise is remembered */
+         !(c.pc == PC_REGISTERED && c.wip == 0 && c.m > 0 && c.pend == 0);                    /* KEY */
+}
+static int cact(int a, cs_t* c) {
+  switch (a) {
+    case 0: if (c->m >= (1u << 30) - 1 || c->pend >= (1u << 30) - 1) return 0; c->m++; c->pend++; return 1;   /* (capacity: fewer than 2^30 messages in flight) */                                                                 /* sender: publish */
+    case 1: if (!c->pend) return 0; c->pend--; if (c->s == W_F) c->wip = 1; c->s = W_RAISED; return 1;      /* sender: exchange RAISED in (after its publish) */
+    case 2: if (c->wip != 1) return 0; c->s = W_NO; c->wip = 2; return 1;                                   /* the raiser that took the waiter resets the word (optional) */
+    case 3: if (!c->wip) return 0; c->wip = 0; c->s = W_NO; c->pc = PC_CHECK; return 1;                     /* ... wakes it: the waiter clears the word, returns, and CHECKS again */
+    case 4: if (c->pc != PC_CHECK) return 0; if (c->m) c->m--; else c->pc = PC_SAW_EMPTY; return 1;         /* receiver: check (receive one message, or see the queue empty) */
+    case 5: if (c->pc != PC_SAW_EMPTY) return 0;                                                            /* receiver: wait */
+            if (c->s == W_NO) { c->s = W_F; c->pc = PC_REGISTERED; } else { c->s = W_NO; c->pc = PC_CHECK; } return 1;
+    case 6: if (c->wip != 2 || c->s != W_NO || !c->pend) return 0; c->pend--; c->s = W_RAISED; return 1;    /* another sender raises between the reset and the wake-up */
+  }
+  return 0;
+}
+void lemma_L5_receiver_never_sleeps_on_a_message(void) {
+  cs_t c; c.s = verif_u32(); c.m = verif_u32(); c.pend = verif_u32(); c.wip = verif_u32(); c.pc = verif_u32();
+  VASSUME(cinv(c));
+  int a = (int)verif_pick(7); VASSUME(cact(a, &c));
+  VASSERT(cinv(c), "L: L5 publish-then-raise and check-wait-check keep: never registered (asleep) with a message queued and no raise under way");
+  VCANARY("L5 premises satisfiable");
+}
